@@ -20,6 +20,8 @@ ENABLE = {
     "t+s>0": B(">", B("+", V("t"), V("s")), I(0)),
     "one": I(1),         # a constant enable: the cell follows the data
     "2>1": B(">", I(2), I(1)),
+    "two": I(2),         # any positive constant enables
+    "zero": I(0),        # never enabled: the cell stays 0
 }
 SHARED = {   # enable shares an input with the data
     "d>2": (V("d"), B(">", V("d"), I(2))),
@@ -162,7 +164,7 @@ class C03(core.Check):
     rule = ("explicit-state BFS to closure from the power-on state over events 'set one input to another value of "
             "its domain, hold until settled'; one case = one program (data form x enable form x explicit/inferred "
             "cell type x reader set); state = (all combinator outputs, input valuation, reference cell); every "
-            "(data and enable forms include a constant datum and constant enables) transition is executed on the emitted blueprint and compared with the reference cell "
+            "(data and enable forms include a constant datum and constant enables; family declared-one explores the blueprint compiled with every input declared as 1) transition is executed on the emitted blueprint and compared with the reference cell "
             "q := v if c>0 else q at every reader; non-trivial = at least two different observations were reached")
     assumptions = ["circuit model fv/sim.py", "reference cell: q := v if c > 0 else q, initially 0",
                    "raw-signal enables explored for values >= 0 only",
@@ -173,7 +175,7 @@ class C03(core.Check):
         for vn, ve in DATA.items():
             for cn, ce in ENABLE.items():
                 for explicit in (True, False):
-                    if vn == "k5" and cn in ("one", "2>1"):
+                    if vn == "k5" and cn in ("one", "2>1", "two", "zero"):
                         continue
                     rs = READERS if (tier == "thorough" or (vn in ("d", "d*c") and cn in ("t>0", "t", "t>0&&s>0"))) \
                         else {"arith+cmp": 0, "bare": 0, "mix+arith": 0}
@@ -183,9 +185,16 @@ class C03(core.Check):
             for explicit in (True, False):
                 for rn in ("arith+cmp", "bare"):
                     out.append(mk("shared", sn, sn, ve, ce, explicit, rn))
+        # the blueprint compiled with the enable input DECLARED as 1 (and the data as 1): the declared values are only
+        # initial values, the histories change them afterwards
+        for vn, cn in (("d", "t"), ("d", "t>0"), ("d*c", "t"), ("d+1", "t>0&&s>0")):
+            for explicit in (True, False):
+                k = mk("declared-one", vn, cn, DATA[vn], ENABLE[cn], explicit, "arith+cmp")
+                k["opts"] = {"optimize": True, "declared": [1] * len(k["inputs"])}
+                out.append(k)
         out += two_cell_cases(tier)
         if tier == "thorough":
-            out += [dict(c, opts={"optimize": False}) for c in list(out)]
+            out += [dict(c, opts=dict(c["opts"], optimize=False)) for c in list(out)]
         return out
 
     def run_case(self, case):
